@@ -247,6 +247,14 @@ func (mm *Mem) targets(p *smt.Term, h *AccessHooks, what string) []Target {
 		// invalid / nil target: decide whether this guard is taken
 		if mm.m.Branch(tg.Guard) {
 			c, isC := Concrete(tg.Addr)
+			if !isC && h != nil && h.OnNil != nil {
+				// symbolic address outside every allocation: inside the nil
+				// region it faults like a nil dereference
+				if !mm.m.Feasible(smt.Uge(tg.Addr, smt.Const(64, NilLimit))) || mm.m.Branch(smt.Ult(tg.Addr, smt.Const(64, NilLimit))) {
+					h.OnNil(tg.Addr)
+					mm.m.EndPath("nil-hook-returned")
+				}
+			}
 			if h != nil && h.OnNil != nil && (!isC || c < NilLimit) {
 				if !isC {
 					// symbolic unresolvable pointer
